@@ -411,12 +411,15 @@ fn blocks(b: &mut Bits, o: &Opts, t: &Tables, r: &mut Res) -> Verdict {
         let v = match btype {
             0 => stored(b, o, r, &mut blk),
             1 => {
-                let (ll, d) = fixed_lens();
-                blk.ll_lens = ll;
-                blk.d_lens = d;
-                let (lc, _) = build(&blk.ll_lens);
-                let (dc, _) = build(&blk.d_lens);
-                codes(b, o, t, r, &lc, &dc)
+                // the fixed code is the same for every block: built once per thread (streams of 10^5 tiny
+                // fixed blocks - Partial-flush markers - are decoded dozens of times per run in C12)
+                thread_local! {
+                    static FIXED: (Code, Code) = {
+                        let (ll, d) = fixed_lens();
+                        (build(&ll).0, build(&d).0)
+                    };
+                }
+                FIXED.with(|f| codes(b, o, t, r, &f.0, &f.1))
             }
             2 => dynamic(b, o, t, r, &mut blk),
             _ => Verdict::Invalid("btype3"),
